@@ -77,6 +77,12 @@ def build(case):
                 L = [f"({name})=", f"## {title}"]
                 nodekind = "heading"
                 heads.append((title, 2, cont))
+            elif tk == "block_heading_html":
+                # a title with inline HTML whose tags sit directly next to each other: the implicit text is the visible text
+                title = f"Head x {mk} y"
+                L = [f"({name})=", f"## Head <b><i>x</i></b> {mk} <kbd>y</kbd><!-- c -->"]
+                nodekind = "heading"
+                heads.append((title, 2, cont))
             elif tk == "attr_para":
                 L = [f"{{#{name}}}", f"{mk} para"]
             elif tk == "attr_heading":
@@ -328,7 +334,7 @@ def eval_case(ctx, case):
 
 # ------------------------------------------------------------------------------------------- workload
 
-TK = ["block_para", "block_heading", "attr_para", "attr_heading", "attr_span", "dir_title", "dir_plain", "slug", "attr_quote", "dir_nested"]
+TK = ["block_para", "block_heading", "block_heading_html", "attr_para", "attr_heading", "attr_span", "dir_title", "dir_plain", "slug", "attr_quote", "dir_nested"]
 TITLES = ["Alpha Beta", "alpha beta", "Gamma", "Gamma", "Gamma 1", "gamma-1", "Delta!", "x `code` y", "Ünï cödé", "Straße", "Οδός Ερμής", "ﬁne ligature", "ÉCOLE Élan", "日本 語", "ǅungla"]  # lower-casing is not case-folding
 
 
@@ -356,7 +362,7 @@ def make_case(R):
             if slug_titles and R.random() < 0.25:
                 name = slug0(R.choice(slug_titles))  # explicit name colliding with a heading slug
             else:
-                name = R.choice(["tgt", "my-target", "a_b", "ünï", "x", "Install-Guide", "My_Target", "UPPER", "Ünï-Cödé"] + (["t.x", "sec 1", "a:b"] if tk in ("block_para", "block_heading", "dir_title", "dir_plain", "dir_nested") else [])) + str(i)
+                name = R.choice(["tgt", "my-target", "a_b", "ünï", "x", "Install-Guide", "My_Target", "UPPER", "Ünï-Cödé"] + (["t.x", "sec 1", "a:b"] if tk in ("block_para", "block_heading", "block_heading_html", "dir_title", "dir_plain", "dir_nested") else [])) + str(i)
             if name.lower() in [x.lower() for x in names] or not name:
                 name = f"n{i}"
             names.append(name)
